@@ -403,6 +403,9 @@ fn spec_streams(ctx: &Ctx, cases: &[Case], built: &[Built], o: &mut Outcome) {
 
 // ------------------------------------------------------------------ shrinking
 pub fn shrink(case: &Case, still_fails: &dyn Fn(&Case) -> bool) -> Case {
+    if crate::unit::is_unit(case) {
+        return case.clone();
+    }
     let mut cur = case.clone();
     let mut progress = true;
     let mut budget = 400;
@@ -539,6 +542,9 @@ pub fn guard_holds(prop: &str, guard: &str, case: &Case, fail: &Fail, rejudge: &
 }
 
 pub fn classify<'a>(ctx: &'a Ctx, case: &Case, fail: &Fail, rejudge: &dyn Fn(&Case) -> Vec<Fail>) -> Option<&'a KnownFinding> {
+    if crate::unit::is_unit(case) {
+        return None;
+    }
     ctx.known
         .iter()
         .find(|k| k.properties.iter().any(|p| p == &ctx.prop) && guard_holds(&ctx.prop, &k.guard, case, fail, rejudge))
